@@ -57,7 +57,7 @@ def line(fields):
 class C14(Property):
     id = "C14"
     lean_module = "RosuModel.Props.C14Full"   # imports Props/C14Grammar.lean (→ Props/C14Split.lean → Props/C14.lean and Lemmas/HoGrammar*.lean) and Props/C14Ieee.lean; all in namespace Rosu.C14 (the grammar in Rosu.C14.HoSpec)
-    theorem_modules = ['RosuModel.Props.C14Grammar', 'RosuModel.Props.C14Ieee']   # files whose top-level theorems are all audited
+    theorem_modules = ['RosuModel.Props.C14Grammar', 'RosuModel.Props.C14Ieee', 'RosuModel.Props.C14IeeePos']   # files whose top-level theorems are all audited
     namespace = "Rosu.C14"
     design_ref = "5.14"
     required_theorems = ["kind_precedence", "maskedType_bits", "unknown_type_rejected", "bad_header_rejected", "accepted_pushes_one",
